@@ -105,6 +105,73 @@ def discharge(ob, axioms, timeout_ms, model=None):
                   detail=(model_summary(v.model) if v.status == "sat" else v.reason), model=v.model)
 
 
+def _solve_smt2(args):
+    smt2, timeout_ms, ematch = args
+    import z3 as _z3, time as _t
+    t0 = _t.time()
+    ctx = _z3.Context()
+    sol = _z3.Solver(ctx=ctx)
+    sol.set(timeout=int(timeout_ms))
+    if ematch:
+        sol.set("smt.mbqi", False)
+    try:
+        sol.from_string(smt2)
+        r = sol.check()
+    except Exception as e:        # noqa
+        return ("unknown", _t.time() - t0, "worker error: " + repr(e)[:200])
+    dt = _t.time() - t0
+    if r == _z3.unsat:
+        return ("unsat", dt, "")
+    if r == _z3.sat:
+        try:
+            mtxt = "; ".join(f"{d.name()} = {sol.model()[d]}" for d in sol.model().decls()[:40])[:3000]
+        except Exception:
+            mtxt = ""
+        return ("sat", dt, mtxt)
+    return ("unknown", dt, sol.reason_unknown())
+
+
+_POOL = None
+
+
+def pool():
+    global _POOL
+    if _POOL is None:
+        import multiprocessing as mp
+        n = int(os.environ.get("VERIF_JOBS", "0")) or min(16, os.cpu_count() or 4)
+        _POOL = mp.get_context("fork").Pool(n)
+    return _POOL
+
+
+def discharge_many(obs, axioms, timeout_ms, model=None):
+    """Discharge obligations in a process pool.  Each query is serialised to SMT-LIB; verdicts are the same as discharge()."""
+    if len(obs) < 4 or os.environ.get("VERIF_JOBS") == "1":
+        return [discharge(ob, axioms, timeout_ms, model) for ob in obs]
+    tasks = []
+    for ob in obs:
+        fs = list(axioms) + list(ob.hyps) + [z3.Not(ob.goal)]
+        if model is not None and hasattr(model, "ground_instances"):
+            fs = skolemize(fs)
+            fs = fs + model.ground_instances(fs)
+        sv = z3.Solver()
+        for f in fs:
+            sv.add(f)
+        tasks.append((sv.to_smt2(), timeout_ms, False))
+    outs = pool().map(_solve_smt2, tasks, chunksize=1)
+    results = []
+    retry = []
+    for ob, (st_, dt, detail) in zip(obs, outs):
+        status = {"unsat": "discharged", "sat": "open", "unknown": "unknown"}[st_]
+        r = Result(ob.name, status, "z3", dt, ob.kind, detail=detail)
+        results.append(r)
+        if status != "discharged":
+            retry.append(len(results) - 1)
+    # anything not discharged is re-examined in process (cvc5 fall-back, E-matching pass, model objects for the falsifier)
+    for i in retry:
+        results[i] = discharge(obs[i], axioms, timeout_ms, model)
+    return results
+
+
 def verify_function(model, contract, timeout_ms=10000, body_override=None, extra_env=None, exclusions=None):
     """Symbolically execute the real function named by contract.source against the contract.
     Returns (results, info).  Raises Unsupported when the code leaves the subset."""
@@ -118,27 +185,32 @@ def verify_function(model, contract, timeout_ms=10000, body_override=None, extra
     ex.contract = contract
     st = State()
     env = {}
-    for name, tystr in contract.params.items():
+    for name, tystr in list(contract.params.items()) + list(contract.ghost.items()):
         ty = parse_type(tystr)
         v = V(z3.Const("arg." + name, ty.sort()), ty)
         env[name] = v
         if is_ref(ty) and not isinstance(ty, OptT):
             st.assume(v.term != NONE)
     for a in list(fdef.args.args) + list(fdef.args.kwonlyargs):
-        if a.arg not in env:
+        if a.arg not in env or a.arg in contract.ghost:
             raise Unsupported(f"{contract.qualname}: parameter {a.arg} has no type in the contract")
     st.env = env
     if extra_env:
         st.env.update(extra_env)
     for name, v in list(env.items()):
         model.type_facts(ex, v, st)
-    for r in contract.requires:
+    for name in list(contract.params) + list(contract.ghost):
+        st.env["old_" + name] = st.env[name]
+    for r in list(contract.requires) + list(contract.definitional):
         t, extra, _ = model.eval_spec(ex, r, st.env, st)
         for f in extra:
             st.assume(f)
         st.assume(t)
     old_env = dict(st.env)
     outs = ex.run(fdef.body, st)
+    missing = set(contract.ghost_code) - getattr(ex, "ghost_hits", set())
+    if missing:
+        raise Unsupported(f"{contract.qualname}: ghost anchor(s) not found in the code: {sorted(missing)}")
     obs = list(ex.obligations)
     n_ret = n_raise = 0
     for idx, o in enumerate(outs):
@@ -150,8 +222,10 @@ def verify_function(model, contract, timeout_ms=10000, body_override=None, extra
                 val = ex.coerce(val, parse_type(contract.result))
             # final values of mutable parameters are visible to ensures under their own names, entry values as old_<name>
             fenv = dict(penv)
-            for k2 in contract.params:
-                if k2 in o.state.env:
+            # parameters are call-by-value: a postcondition speaks about their entry values, except for parameters listed in
+            # `modifies` (mutated in place through the reference), which denote the final value, `old_<name>` the entry value
+            for k2 in list(contract.params) + list(contract.ghost):
+                if k2 in contract.modifies and k2 in o.state.env:
                     fenv[k2] = o.state.env[k2]
                 fenv["old_" + k2] = old_env[k2]
             for i, e in enumerate(contract.ensures):
@@ -173,8 +247,8 @@ def verify_function(model, contract, timeout_ms=10000, body_override=None, extra
             raise Unsupported(f"{contract.qualname}: stray {o.kind} outcome")
     axioms = model.axioms()
     results = []
-    for ob in obs:
-        r = discharge(ob, axioms, timeout_ms)
+    first = discharge_many(obs, axioms, timeout_ms)
+    for ob, r in zip(obs, first):
         r.group = group_of(ob.name)
         if r.status != "discharged" and exclusions and r.group in exclusions:
             # known finding: try again outside the listed input classes (section 2.9 of DESIGN.md)
@@ -192,9 +266,9 @@ def verify_function(model, contract, timeout_ms=10000, body_override=None, extra
         results.append(r)
     # cover: the end of the function is reachable under the precondition (non-vacuity)
     reach = False
-    for o in outs:
-        v = check_sat(axioms + o.state.pc, timeout_ms, want_model=False)
-        if v.status != "unsat":
+    for o in sorted(outs, key=lambda o: len(o.state.pc)):
+        v = check_sat(axioms + o.state.pc, 1500, want_model=False, use_cvc5=False)
+        if v.status != "unsat":       # sat, or not shown contradictory within the budget
             reach = True
             break
     results.append(Result(f"{contract.qualname}:cover:no-dead-end", "open" if ex.dead_ends else "discharged", "z3", 0.0, "cover",
